@@ -432,6 +432,63 @@ func c12xRun(c *c12xCase) (rec vtr.Rec) {
 		}
 		return
 	}
+	if c.Kind == "conc" {
+		// two invocations consume the result at the same time (they share its tasks: one of them runs a task that has
+		// to be recomputed, the other waits for it), optionally with a Discard of the result racing with them
+		l.emit(vtr.Rec{"ev": "HReuse"})
+		ctx2, cancel2 := context.WithTimeout(context.Background(), 40*time.Second)
+		type out struct {
+			o         string
+			rows, sum int
+		}
+		outs := make([]out, 2)
+		var wg sync.WaitGroup
+		for i := range outs {
+			i := i
+			wg.Add(1)
+			go func() {
+				defer wg.Done()
+				r2, err := sess.Run(ctx2, c12xStage2, r1.res)
+				outs[i].o = c12xOutcome(err, ctx2)
+				if err == nil {
+					var serr error
+					outs[i].rows, outs[i].sum, serr = c12xScan(ctx2, r2)
+					if serr != nil {
+						outs[i].o = "scan " + c12xOutcome(serr, ctx2)
+					}
+				}
+			}()
+		}
+		rec["discardret"] = true
+		if c.Discard {
+			time.Sleep(time.Duration(c.Gate) * time.Millisecond)
+			l.emit(vtr.Rec{"ev": "HDiscard"})
+			dctx, dcancel := context.WithTimeout(context.Background(), 10*time.Second)
+			ddone := make(chan struct{})
+			go func() { r1.res.Discard(dctx); close(ddone) }()
+			select {
+			case <-ddone:
+			case <-time.After(12 * time.Second):
+				rec["discardret"] = false
+			}
+			dcancel()
+			l.emit(vtr.Rec{"ev": "HDiscardDone"})
+		}
+		wg.Wait()
+		cancel2()
+		rec["reuse"], rec["rows"], rec["sum"] = outs[0].o, outs[0].rows, outs[0].sum
+		if outs[1].o != "ok" {
+			rec["reuse"] = outs[1].o
+		} else if outs[0].o == "ok" && (outs[1].rows != outs[0].rows || outs[1].sum != outs[0].sum) {
+			rec["rows"], rec["sum"] = -1, -1 // the two consumers disagree
+		}
+		rec["wantrows"], rec["wantsum"] = 11, 24*c.NShard+11
+		l.emit(vtr.Rec{"ev": "HEnd"})
+		l.mu.Lock()
+		rec["events"] = append([]vtr.Rec{}, l.evs...)
+		l.mu.Unlock()
+		return
+	}
 	if c.Discard {
 		l.emit(vtr.Rec{"ev": "HDiscard"})
 		dctx, dcancel := context.WithTimeout(context.Background(), 10*time.Second)
